@@ -29,6 +29,14 @@ func synth502(r *Report, f *ssa.Function, contact *ssa.Call, resIdx int, label s
 	for _, e := range errOf(contact) {
 		errv = e
 	}
+	// the value the test looks at (the error itself, or a variable it was merged into)
+	var tested ssa.Value
+	if b, ok := t.If.Cond.(*ssa.BinOp); ok {
+		tested = b.X
+		if isNilConst(b.X) {
+			tested = b.Y
+		}
+	}
 	// nearest response-modifier call reachable from the error edge
 	var mod ssa.CallInstruction
 	path := g.PathTo(blockStart(t.NonNil), true, nil, func(i ssa.Instruction) bool { return isResMod(i) })
@@ -79,7 +87,7 @@ func synth502(r *Report, f *ssa.Function, contact *ssa.Call, resIdx int, label s
 			return false
 		}
 		a := wc.Common().Args
-		return messageOfHeader(a[0]) == resv && a[1] == errv
+		return messageOfHeader(a[0]) == resv && (a[1] == errv || (tested != nil && a[1] == tested))
 	}
 	p := g.PathTo(blockStart(t.NonNil), true, isWarn, func(i ssa.Instruction) bool { return i == ssa.Instruction(mod) })
 	r.Decide("path", key+" adds the Warning", p == nil && resv != nil, "Warning(res.Header, err) with the 502 and the upstream error on every path", "a path from the error edge reaches the response modifier without Warning(<502>.Header, <upstream error>)", contact.Pos())
@@ -164,6 +172,14 @@ func c03(r *Report) {
 
 	r.Guard("C03.R1", "an upstream failure is turned into a 502 with a Warning that passes through the response modifier", func() {
 		rts := plainCalls(handle, "(*M.Proxy).roundTrip")
+		if len(rts) == 0 && r.W.Fn("", "Proxy.roundTrip") == nil {
+			// the helper has been inlined: the upstream contact is the transport call itself
+			for _, c := range calls(handle, "(net/http.RoundTripper).RoundTrip") {
+				if cc, ok := c.(*ssa.Call); ok {
+					rts = append(rts, cc)
+				}
+			}
+		}
 		if len(rts) != 1 {
 			r.Undecided("(*M.Proxy).handle: roundTrip", fmt.Sprintf("UNRESOLVED: %d roundTrip calls", len(rts)))
 		} else {
@@ -270,7 +286,7 @@ func c03(r *Report) {
 		if len(tests) == 1 {
 			g := G(handle)
 			p := g.PathTo(blockStart(tests[0].NonNil), true, nil, func(i ssa.Instruction) bool {
-				_, a := isCall(i, nResWrite, "(*M.Proxy).roundTrip")
+				_, a := isCall(i, nResWrite, "(*M.Proxy).roundTrip", "(net/http.RoundTripper).RoundTrip")
 				return a || isReqMod(i)
 			})
 			r.Decide("path", "(*M.Proxy).handle: no processing after a failed read", p == nil, "the error edge only returns", "the exchange continues after a failed request read", rc[0].Pos())
